@@ -176,6 +176,18 @@ theorem evaluate_total (meth : Method) (alts : List String) (A : Mat m n ℝ) (o
   by_cases hr : refuses meth A o w = true
   · left; simp [hr]
   · right; exact ⟨_, by simp only [hr, Bool.false_eq_true, if_false]; rfl, by simpa using hr⟩
+
+/-- ELECTRE1 end to end: the result names the input's alternatives, carries one boolean per
+alternative, and alternative `k` is in the kernel exactly when no alternative outranks it in the
+relation the result itself reports -/
+theorem electre1_result {α : Type} [Field α] [LinearOrder α] [IsStrictOrderedRing α]
+    (alts : List String) (A : Mat m n α) (o : Vec n Obj) (w : Vec n α) (p q : α) (k : Fin m) :
+    (evaluateElectre1 alts A o w p q).alts = alts ∧
+    ((evaluateElectre1 alts A o w p q).kernel k = true ↔ ∀ a, (evaluateElectre1 alts A o w p q).outrank a k = false) := by
+  refine ⟨rfl, ?_⟩
+  simp only [evaluateElectre1, Skc.Electre.electre1Kernel]
+  rw [Bool.not_eq_true', ← Bool.not_eq_true, anyFin_iff]
+  simp
 end methods
 
 /-! non-vacuity: concrete instances -/
